@@ -551,6 +551,102 @@ theorem never_submitted (e : Bool) (w : List Nat) (ss : List (List Nat)) (h : P0
   subst hl
   exact ⟨l, ha, hnl⟩
 
+/-! #### the periodic executed-check of the watch loops (EVM, Substrate) -/
+
+/-- one sweep: "all executed" iff every member of the batch is reported executed; in particular a lookup error or a
+    single pending member anywhere in the batch means "keep waiting" -/
+theorem allExecuted_iff (v : List Ans) : allExecuted v = true ↔ ∀ a ∈ v, a = .exec := by
+  induction v with
+  | nil => simp [allExecuted]
+  | cons a r ih => simp [allExecuted, ih]
+
+theorem tick_PTick (v : List Ans) : PTick v (allExecuted v) := allExecuted_iff v
+
+theorem tick_waits_on_pending_or_error (v : List Ans) (a : Ans) (ha : a ∈ v) (hne : a ≠ .exec) :
+    allExecuted v = false := by
+  cases h : allExecuted v
+  · rfl
+  · exact absurd ((allExecuted_iff v).1 h a ha) hne
+
+theorem allExecAt_iff (script : List (List Ans)) (t : Nat) :
+    AllExecAt script t ↔ ∃ v, script[t]? = some v ∧ allExecuted v = true := by
+  unfold AllExecAt
+  cases h : script[t]? with
+  | none => simp
+  | some v => simp [allExecuted_iff]
+
+theorem watchFrom_spec (script : List (List Ans)) (i : Nat) :
+    match watchFrom i script with
+    | some t => i ≤ t ∧ AllExecAt script (t - i) ∧ ∀ k, k < t - i → ¬ AllExecAt script k
+    | none => ∀ k, k < script.length → ¬ AllExecAt script k := by
+  induction script generalizing i with
+  | nil => simp [watchFrom]
+  | cons v r ih =>
+    unfold watchFrom
+    by_cases hv : allExecuted v = true
+    · simp only [hv, if_true]
+      refine ⟨Nat.le_refl _, ?_, ?_⟩
+      · rw [Nat.sub_self, allExecAt_iff]; exact ⟨v, rfl, hv⟩
+      · intro k hk; omega
+    · simp only [hv, if_false]
+      have hv0 : ¬ AllExecAt (v :: r) 0 := by
+        rw [allExecAt_iff]; rintro ⟨w, hw, hw2⟩; simp at hw; subst hw; exact hv hw2
+      have shift : ∀ k, AllExecAt (v :: r) (k + 1) ↔ AllExecAt r k := by
+        intro k; simp [AllExecAt]
+      have := ih (i + 1)
+      split at this
+      · next t heq =>
+        rw [heq]
+        obtain ⟨h1, h2, h3⟩ := this
+        refine ⟨by omega, ?_, ?_⟩
+        · have : t - i = (t - (i + 1)) + 1 := by omega
+          rw [this, shift]; exact h2
+        · intro k hk
+          cases k with
+          | zero => exact hv0
+          | succ k => rw [shift]; exact h3 k (by omega)
+      · next heq =>
+        rw [heq]
+        intro k hk
+        cases k with
+        | zero => exact hv0
+        | succ k => rw [shift]; exact this k (by simpa using hk)
+
+/-- **the watch loop closes a session as executed only at the first tick at which EVERY member of its batch is
+    reported executed**, for every batch size and every sequence of per-tick answer vectors (answers may change
+    between ticks; lookup errors count as not executed) -/
+theorem watch_PWatch (script : List (List Ans)) : PWatch script (watch script) := by
+  have := watchFrom_spec script 0
+  unfold PWatch watch
+  split at this
+  · next t heq => rw [heq]; simpa using this.2
+  · next heq => rw [heq]; exact this
+
+/-- hence no pending member is dropped: if member `j` of the batch is not reported executed at tick `t` (pending, or
+    its lookup fails), the session is not closed at `t` — it stays open until that member's signature/submission or
+    until the member itself is executed. This is the overlapping-delivery case: D1=[A] lands while D2=[A,B] is still
+    being signed; at the next tick D2 sees (A executed, B pending) and must keep going. -/
+theorem no_pending_member_dropped (script : List (List Ans)) (t : Nat) (v : List Ans) (j : Nat) (a : Ans)
+    (hv : script[t]? = some v) (hj : v[j]? = some a) (hne : a ≠ .exec) : watch script ≠ some t := by
+  intro hw
+  have h := watch_PWatch script
+  rw [hw] at h
+  have := h.1
+  unfold AllExecAt at this
+  rw [hv] at this
+  exact hne (this a (List.mem_of_getElem? hj))
+
+/-- the defect class kept as a witness: a tick decision that looks only at the first member closes D2=[A,B] when A has
+    been executed by an overlapping delivery and B is still pending -/
+theorem firstOnly_drops_pending :
+    let firstOnly : List Ans → Bool := fun v => v.head? = some .exec
+    firstOnly [.exec, .notExec] = true ∧ ¬ PTick [.exec, .notExec] (firstOnly [.exec, .notExec]) ∧
+    ¬ PWatch [[.exec, .notExec]] (some 0) := by decide
+
+example : watch [[.exec, .notExec], [.exec, .err], [.exec, .exec]] = some 2 ∧
+    sweeps [[.exec, .notExec], [.exec, .err], [.exec, .exec]] = [[0, 1], [0, 1], [0, 1]] ∧
+    watch [[.notExec, .exec], [.err, .exec]] = none := by decide
+
 /-! #### histories -/
 
 theorem hasErr_answersFrom (ex : List Nat) (f : Option Nat) (i : Nat) (ns : List Nat) :
